@@ -560,6 +560,8 @@ fn encode(run: &Run, thorough: bool, acc: &mut Acc) {
     };
     expect_failure(&a(&["--puncturing", "1,x,0"]), "malformed puncturing pattern", acc);
     expect_failure(&a(&["--puncturing", "1,0"]), "pattern length does not divide the codeword", acc);
+    expect_failure(&a(&["--puncturing", "1,1"]), "all-ones pattern whose length does not divide the codeword", acc);
+    expect_failure(&a(&["--puncturing", "1,1,1"]), "all-ones pattern whose length does not divide the codeword", acc);
     expect_failure(&sargs(&["encode", apath.to_str().unwrap(), "/nonexistent/in", opath.to_str().unwrap()]), "missing input file", acc);
     expect_failure(&sargs(&["encode", "/nonexistent/a.alist", ipath.to_str().unwrap(), opath.to_str().unwrap()]), "missing alist file", acc);
     for p in [apath, ipath, opath] {
